@@ -429,12 +429,12 @@ theorem bitAt_orRows (r : Words) (ofs rows : Nat) (bit : Nat → Bool) (j : Nat)
 
 
 /-- Row `j` of a packed-bit call of `n` rows lies in the part of its chunk
-that `ReceiveBits` XORs with the choice words (`words = byteRows / 8` whole
+that `ReceiveBits` XORs with the choice words (`words = wf byteRows` whole
 64-bit words per chunk). -/
-def covered (n j : Nat) : Bool :=
+def covered (wf : Nat → Nat) (n j : Nat) : Bool :=
   let c := j / 512 * 512
   let rows := min 512 (n - c)
-  decide ((j - c) / 8 < 8 * ((rows + 7) / 8 / 8))
+  decide ((j - c) / 8 < 8 * wf ((rows + 7) / 8))
 
 theorem wordByte_bit (x : BitVec 64) (t s : Nat) (hs : s < 8) : (wordByte x t).getLsbD s = x.getLsbD (8 * t + s) := by
   simp [wordByte, hs]
@@ -449,8 +449,8 @@ theorem maskOK_bits (choices : Words) (wo words w : Nat) :
   rw [bget_mk _ _ _ (by omega)]
   by_cases h : k < 8 * words <;> simp [h]
 
-theorem recvBitsLoop_done (R0 R1 : Nat → Nat → Byte) (ch : Words) (n fuel ofs : Nat) (rs : RecvSt) (res : Words)
-    (h : n ≤ ofs) : recvBitsLoop R0 R1 ch n fuel ofs rs res = (rs, res, []) := by
+theorem recvBitsLoop_done (wf : Nat → Nat) (R0 R1 : Nat → Nat → Byte) (ch : Words) (n fuel ofs : Nat) (rs : RecvSt) (res : Words)
+    (h : n ≤ ofs) : recvBitsLoop wf R0 R1 ch n fuel ofs rs res = (rs, res, []) := by
   cases fuel with
   | zero => rfl
   | succ f => simp [recvBitsLoop, Nat.not_lt.mpr h]
@@ -461,7 +461,7 @@ theorem sendBitsLoop_done (SS : Nat → Nat → Byte) (delta : Label) (n fuel of
   | zero => simp [sendBitsLoop, Nat.not_lt.mpr h]
   | succ f => simp [sendBitsLoop, Nat.not_lt.mpr h]
 
-theorem bits_loops (R0 R1 SS : Nat → Nat → Byte) (delta : Label) (hb : BaseOK R0 R1 SS delta)
+theorem bits_loops (wf : Nat → Nat) (R0 R1 SS : Nat → Nat → Byte) (delta : Label) (hb : BaseOK R0 R1 SS delta)
     (choices : Words) (n : Nat) :
     ∀ (fuelR fuelS ofs : Nat) (rs : RecvSt) (ss : SendSt) (resR resS : Words) (more : List Bytes),
       InStep rs ss → ((ofs % 512 = 0 ∧ ofs < n) ∨ n ≤ ofs) →
@@ -470,27 +470,27 @@ theorem bits_loops (R0 R1 SS : Nat → Nat → Byte) (delta : Label) (hb : BaseO
       n - ofs ≤ fuelR → n - ofs ≤ fuelS →
       ∃ ss' outS,
         sendBitsLoop SS delta n fuelS ofs ss resS
-            ((recvBitsLoop R0 R1 choices n fuelR ofs rs resR).2.2 ++ more) = some (ss', outS, more) ∧
-        InStep (recvBitsLoop R0 R1 choices n fuelR ofs rs resR).1 ss' ∧
-        (recvBitsLoop R0 R1 choices n fuelR ofs rs resR).2.1.size = resR.size ∧ outS.size = resS.size ∧
-        (∀ j, j < ofs → bitAt (recvBitsLoop R0 R1 choices n fuelR ofs rs resR).2.1 j = bitAt resR j ∧
+            ((recvBitsLoop wf R0 R1 choices n fuelR ofs rs resR).2.2 ++ more) = some (ss', outS, more) ∧
+        InStep (recvBitsLoop wf R0 R1 choices n fuelR ofs rs resR).1 ss' ∧
+        (recvBitsLoop wf R0 R1 choices n fuelR ofs rs resR).2.1.size = resR.size ∧ outS.size = resS.size ∧
+        (∀ j, j < ofs → bitAt (recvBitsLoop wf R0 R1 choices n fuelR ofs rs resR).2.1 j = bitAt resR j ∧
             bitAt outS j = bitAt resS j) ∧
-        (∀ j, n ≤ j → ofs ≤ j → bitAt (recvBitsLoop R0 R1 choices n fuelR ofs rs resR).2.1 j = false ∧
+        (∀ j, n ≤ j → ofs ≤ j → bitAt (recvBitsLoop wf R0 R1 choices n fuelR ofs rs resR).2.1 j = false ∧
             bitAt outS j = false) ∧
         (∀ j, ofs ≤ j → j < n →
-          bitAt (recvBitsLoop R0 R1 choices n fuelR ofs rs resR).2.1 j =
-            (bitAt outS j ^^ (labelBit delta 0 && (covered n j && bitAt choices j)))) := by
+          bitAt (recvBitsLoop wf R0 R1 choices n fuelR ofs rs resR).2.1 j =
+            (bitAt outS j ^^ (labelBit delta 0 && (covered wf n j && bitAt choices j)))) := by
   intro fuelR
   induction fuelR with
   | zero =>
     intro fuelS ofs rs ss resR resS more hs _ _ _ hz hfR _
     have h1 : n ≤ ofs := by omega
     refine ⟨ss, resS, ?_, ?_, ?_, rfl, ?_, ?_, ?_⟩
-    · rw [recvBitsLoop_done _ _ _ _ _ _ _ _ h1, sendBitsLoop_done _ _ _ _ _ _ _ _ h1]; rfl
-    · rw [recvBitsLoop_done _ _ _ _ _ _ _ _ h1]; exact hs
-    · rw [recvBitsLoop_done _ _ _ _ _ _ _ _ h1]
-    · intro j _; rw [recvBitsLoop_done _ _ _ _ _ _ _ _ h1]; exact ⟨rfl, rfl⟩
-    · intro j _ hj; rw [recvBitsLoop_done _ _ _ _ _ _ _ _ h1]; exact hz j hj
+    · rw [recvBitsLoop_done _ _ _ _ _ _ _ _ _ h1, sendBitsLoop_done _ _ _ _ _ _ _ _ h1]; rfl
+    · rw [recvBitsLoop_done _ _ _ _ _ _ _ _ _ h1]; exact hs
+    · rw [recvBitsLoop_done _ _ _ _ _ _ _ _ _ h1]
+    · intro j _; rw [recvBitsLoop_done _ _ _ _ _ _ _ _ _ h1]; exact ⟨rfl, rfl⟩
+    · intro j _ hj; rw [recvBitsLoop_done _ _ _ _ _ _ _ _ _ h1]; exact hz j hj
     · intro j h2 h3; omega
   | succ fR ih =>
     intro fuelS ofs rs ss resR resS more hs hofs hszR hszS hz hfR hfS
@@ -498,21 +498,20 @@ theorem bits_loops (R0 R1 SS : Nat → Nat → Byte) (delta : Label) (hb : BaseO
     · obtain ⟨fS, rfl⟩ : ∃ fS, fuelS = fS + 1 := ⟨fuelS - 1, by omega⟩
       let rows := min chunkRows (n - ofs)
       let w := (rows + 7) / 8
-      let words := w / 8
+      let words := wf w
       have hcr : chunkRows = 512 := rfl
       have hrows : rows = min chunkRows (n - ofs) := rfl
       have hw : w = (rows + 7) / 8 := rfl
-      have hwords : words = w / 8 := rfl
       let mask : Bytes → Bytes := fun tmp => xorWords tmp choices (ofs / 64) words
       let cb : Nat → Byte := fun k => if k < 8 * words then wordByte (choices.getD (ofs / 64 + k / 8) 0#64) (k % 8) else 0#8
       have hmask : MaskOK mask w cb := maskOK_bits choices (ofs / 64) words w
       let uc := recvCols R0 R1 rs w mask
       let rbit : Nat → Bool := fun row => labelBit ((createLabels chunkRows uc.2 w).getD row 0#128) 0
       let sbit : Nat → Bool := fun row => (bget (sendCols SS delta ss uc.1 w) (row / 8)).getLsbD (row % 8)
-      have hR : recvBitsLoop R0 R1 choices n (fR + 1) ofs rs resR =
-          ((recvBitsLoop R0 R1 choices n fR (ofs + rows) (rs.adv w) (orRows resR ofs rows rbit)).1,
-           (recvBitsLoop R0 R1 choices n fR (ofs + rows) (rs.adv w) (orRows resR ofs rows rbit)).2.1,
-           uc.1 :: (recvBitsLoop R0 R1 choices n fR (ofs + rows) (rs.adv w) (orRows resR ofs rows rbit)).2.2) := by
+      have hR : recvBitsLoop wf R0 R1 choices n (fR + 1) ofs rs resR =
+          ((recvBitsLoop wf R0 R1 choices n fR (ofs + rows) (rs.adv w) (orRows resR ofs rows rbit)).1,
+           (recvBitsLoop wf R0 R1 choices n fR (ofs + rows) (rs.adv w) (orRows resR ofs rows rbit)).2.1,
+           uc.1 :: (recvBitsLoop wf R0 R1 choices n fR (ofs + rows) (rs.adv w) (orRows resR ofs rows rbit)).2.2) := by
         simp only [recvBitsLoop, hlt, if_true, rows, w, words, uc, mask, rbit]
       have husz : uc.1.size = K * w := size_recvCols_u ..
       have hK : K = 128 := rfl
@@ -528,7 +527,7 @@ theorem bits_loops (R0 R1 SS : Nat → Nat → Byte) (delta : Label) (hb : BaseO
         simp only [sendBitsLoop, hlt, if_true, h1, h2, ne_eq, not_true_eq_false, if_false, Nat.not_lt.mpr hwle, hmax, sbit]
       -- chunk algebra on column 0
       have hbits : ∀ row, row < rows →
-          rbit row = (sbit row ^^ (labelBit delta 0 && (covered n (ofs + row) && bitAt choices (ofs + row)))) := by
+          rbit row = (sbit row ^^ (labelBit delta 0 && (covered wf n (ofs + row) && bitAt choices (ofs + row)))) := by
         intro row hrow
         have hk : row / 8 < w := by omega
         have h0 : (0 : Nat) < K := by decide
@@ -543,8 +542,8 @@ theorem bits_loops (R0 R1 SS : Nat → Nat → Byte) (delta : Label) (hb : BaseO
           show (bget (sendCols SS delta ss uc.1 w) (row / 8)).getLsbD (row % 8) = _
           rw [hcc]
           by_cases hd : labelBit delta 0 <;> simp [hd] <;> rfl
-        have hcb : (cb (row / 8)).getLsbD (row % 8) = (covered n (ofs + row) && bitAt choices (ofs + row)) := by
-          have hcov : covered n (ofs + row) = decide (row / 8 < 8 * words) := by
+        have hcb : (cb (row / 8)).getLsbD (row % 8) = (covered wf n (ofs + row) && bitAt choices (ofs + row)) := by
+          have hcov : covered wf n (ofs + row) = decide (row / 8 < 8 * words) := by
             unfold covered
             have e1 : (ofs + row) / 512 * 512 = ofs := by omega
             simp only [e1]
@@ -564,7 +563,7 @@ theorem bits_loops (R0 R1 SS : Nat → Nat → Byte) (delta : Label) (hb : BaseO
         rw [hr, hs', hcb]
         generalize (bget uc.2 (row / 8)).getLsbD (row % 8) = x
         generalize (labelBit delta 0) = d
-        generalize (covered n (ofs + row) && bitAt choices (ofs + row)) = c
+        generalize (covered wf n (ofs + row) && bitAt choices (ofs + row)) = c
         cases x <;> cases d <;> cases c <;> rfl
       have hofs' : (((ofs + rows) % 512 = 0 ∧ ofs + rows < n) ∨ n ≤ ofs + rows) := by
         by_cases h : ofs + rows < n
@@ -616,24 +615,35 @@ theorem bits_loops (R0 R1 SS : Nat → Nat → Byte) (delta : Label) (hb : BaseO
           rw [e]
         · exact hmid j (by omega) hj2
     · refine ⟨ss, resS, ?_, ?_, ?_, rfl, ?_, ?_, ?_⟩
-      · rw [recvBitsLoop_done _ _ _ _ _ _ _ _ h1, sendBitsLoop_done _ _ _ _ _ _ _ _ h1]; rfl
-      · rw [recvBitsLoop_done _ _ _ _ _ _ _ _ h1]; exact hs
-      · rw [recvBitsLoop_done _ _ _ _ _ _ _ _ h1]
-      · intro j _; rw [recvBitsLoop_done _ _ _ _ _ _ _ _ h1]; exact ⟨rfl, rfl⟩
-      · intro j _ hj; rw [recvBitsLoop_done _ _ _ _ _ _ _ _ h1]; exact hz j hj
+      · rw [recvBitsLoop_done _ _ _ _ _ _ _ _ _ h1, sendBitsLoop_done _ _ _ _ _ _ _ _ h1]; rfl
+      · rw [recvBitsLoop_done _ _ _ _ _ _ _ _ _ h1]; exact hs
+      · rw [recvBitsLoop_done _ _ _ _ _ _ _ _ _ h1]
+      · intro j _; rw [recvBitsLoop_done _ _ _ _ _ _ _ _ _ h1]; exact ⟨rfl, rfl⟩
+      · intro j _ hj; rw [recvBitsLoop_done _ _ _ _ _ _ _ _ _ h1]; exact hz j hj
       · intro j h2 h3; omega
 
 
 /-! ### Whole calls and sessions -/
 
 
-theorem covered_of_good (n j : Nat) (hj : j < n) (hn : n % 64 = 0 ∨ 57 ≤ n % 64) : covered n j = true := by
-  unfold covered
+/-- With the current word count every row of every call is covered. -/
+theorem covered_head (n j : Nat) (hj : j < n) : covered wordsHead n j = true := by
+  unfold covered wordsHead
   simp only [decide_eq_true_eq]
   omega
 
-theorem not_covered_last (n : Nat) (h1 : 1 ≤ n % 64) (h2 : n % 64 ≤ 56) : covered n (n - 1) = false := by
-  unfold covered
+/-- With the old word count all rows are covered iff the last chunk has no
+partial word... -/
+theorem covered_old_of_good (n j : Nat) (hj : j < n) (hn : n % 64 = 0 ∨ 57 ≤ n % 64) :
+    covered wordsOld n j = true := by
+  unfold covered wordsOld
+  simp only [decide_eq_true_eq]
+  omega
+
+/-- ... and otherwise the last row is not. -/
+theorem not_covered_old_last (n : Nat) (h1 : 1 ≤ n % 64) (h2 : n % 64 ≤ 56) :
+    covered wordsOld n (n - 1) = false := by
+  unfold covered wordsOld
   simp only [decide_eq_false_iff_not]
   omega
 
@@ -706,28 +716,29 @@ theorem bitAt_zeroWords (m j : Nat) : bitAt (mk m fun _ => 0#64) j = false := by
   · rw [getD_mk _ _ _ _ h]; simp
   · simp [mk, Array.getD, h]
 
-/-- One call of the packed-bit form on zeroed result buffers. -/
-theorem bits_call (R0 R1 SS : Nat → Nat → Byte) (delta : Label) (hb : BaseOK R0 R1 SS delta)
+/-- One call of the packed-bit form on zeroed result buffers, for any
+word-count rule `wf`. -/
+theorem bits_call (wf : Nat → Nat) (R0 R1 SS : Nat → Nat → Byte) (delta : Label) (hb : BaseOK R0 R1 SS delta)
     (rs : RecvSt) (ss : SendSt) (hs : InStep rs ss) (choices : Words) (n : Nat)
     (hch : (n + 63) / 64 ≤ choices.size) (more : List Bytes) :
     ∃ rs' ss' rw sw msgs,
-      receiveBits R0 R1 rs choices (mk ((n + 63) / 64) fun _ => 0#64) n = some (rs', rw, msgs) ∧
+      receiveBitsWith wf R0 R1 rs choices (mk ((n + 63) / 64) fun _ => 0#64) n = some (rs', rw, msgs) ∧
       sendBits SS delta ss n (mk ((n + 63) / 64) fun _ => 0#64) (msgs ++ more) = some (ss', sw, more) ∧
       InStep rs' ss' ∧ rw.size = (n + 63) / 64 ∧ sw.size = (n + 63) / 64 ∧
-      (∀ j, j < n → bitAt rw j = (bitAt sw j ^^ (labelBit delta 0 && (covered n j && bitAt choices j)))) ∧
+      (∀ j, j < n → bitAt rw j = (bitAt sw j ^^ (labelBit delta 0 && (covered wf n j && bitAt choices j)))) ∧
       (∀ j, n ≤ j → bitAt rw j = false ∧ bitAt sw j = false) := by
   have hz : ∀ j, 0 ≤ j → bitAt (mk ((n + 63) / 64) fun _ => 0#64) j = false ∧
       bitAt (mk ((n + 63) / 64) fun _ => 0#64) j = false := fun j _ => ⟨bitAt_zeroWords .., bitAt_zeroWords ..⟩
   obtain ⟨ss', sw, h1, h2, h3, h4, _, h6, h7⟩ :=
-    bits_loops R0 R1 SS delta hb choices n n (n + 1) 0 rs ss (mk ((n + 63) / 64) fun _ => 0#64)
+    bits_loops wf R0 R1 SS delta hb choices n n (n + 1) 0 rs ss (mk ((n + 63) / 64) fun _ => 0#64)
       (mk ((n + 63) / 64) fun _ => 0#64) more hs
       (by by_cases h : 0 < n
           · left; exact ⟨rfl, h⟩
           · right; omega) (by simp) (by simp) hz (by omega) (by omega)
-  refine ⟨(recvBitsLoop R0 R1 choices n n 0 rs (mk ((n + 63) / 64) fun _ => 0#64)).1, ss',
-    (recvBitsLoop R0 R1 choices n n 0 rs (mk ((n + 63) / 64) fun _ => 0#64)).2.1, sw,
-    (recvBitsLoop R0 R1 choices n n 0 rs (mk ((n + 63) / 64) fun _ => 0#64)).2.2, ?_, ?_, h2, ?_, ?_, ?_, ?_⟩
-  · unfold receiveBits
+  refine ⟨(recvBitsLoop wf R0 R1 choices n n 0 rs (mk ((n + 63) / 64) fun _ => 0#64)).1, ss',
+    (recvBitsLoop wf R0 R1 choices n n 0 rs (mk ((n + 63) / 64) fun _ => 0#64)).2.1, sw,
+    (recvBitsLoop wf R0 R1 choices n n 0 rs (mk ((n + 63) / 64) fun _ => 0#64)).2.2, ?_, ?_, h2, ?_, ?_, ?_, ?_⟩
+  · unfold receiveBitsWith
     have e1 : ¬ ((n + 63) / 64 > choices.size) := by omega
     have e2 : ¬ ((n + 63) / 64 > (mk ((n + 63) / 64) fun _ => (0#64 : BitVec 64)).size) := by simp
     rw [if_neg e1, if_neg e2]
@@ -741,15 +752,15 @@ theorem bits_call (R0 R1 SS : Nat → Nat → Byte) (delta : Label) (hb : BaseOK
   · intro j hj; exact h6 j hj (Nat.zero_le _)
 
 /-- What a call must deliver.  Label form: `received_i = sent_i xor choice_i*Delta`.
-Packed-bit form: what the code really computes — the correlation only on the
-rows `covered` by the word-wise choice XOR. -/
+Packed-bit form: `received_j = sent_j xor (Delta.Bit(0) and choice_j)`, and no
+bit set at positions `≥ n`. -/
 def CallSpec (delta : Label) : Call → CallOut → Prop
   | .labels _ b _ _, o =>
     o.sentL.length = b.size ∧ o.rcvdL.length = b.size ∧
     ∀ i, i < b.size → o.rcvdL.getD i 0#128 = o.sentL.getD i 0#128 ^^^ (if b.getD i false then delta else 0#128)
   | .bits n ch, o =>
     o.sentW.size = (n + 63) / 64 ∧ o.rcvdW.size = (n + 63) / 64 ∧
-    (∀ j, j < n → bitAt o.rcvdW j = (bitAt o.sentW j ^^ (labelBit delta 0 && (covered n j && bitAt ch j)))) ∧
+    (∀ j, j < n → bitAt o.rcvdW j = (bitAt o.sentW j ^^ (labelBit delta 0 && bitAt ch j))) ∧
     (∀ j, n ≤ j → bitAt o.rcvdW j = false ∧ bitAt o.sentW j = false)
 
 /-- Caller obligations: the choice buffer of a packed-bit call is long enough
@@ -778,10 +789,13 @@ theorem call_ok (R0 R1 SS : Nat → Nat → Byte) (delta : Label) (hb : BaseOK R
         (receiveMal R0 R1 rs b b0 b1).2.2, ?_, h2, h3, h4, h5⟩
       simp only [runCall, h1]
   | bits n ch =>
-    obtain ⟨rs', ss', rw, sw, msgs, h1, h2, h3, h4, h5, h6, h7⟩ := bits_call R0 R1 SS delta hb rs ss hs ch n hc []
+    obtain ⟨rs', ss', rw, sw, msgs, h1, h2, h3, h4, h5, h6, h7⟩ :=
+      bits_call wordsHead R0 R1 SS delta hb rs ss hs ch n hc []
     rw [List.append_nil] at h2
-    refine ⟨rs', ss', { sentW := sw, rcvdW := rw }, msgs, ?_, h3, h5, h4, h6, h7⟩
-    simp only [runCall, h1, h2]
+    refine ⟨rs', ss', { sentW := sw, rcvdW := rw }, msgs, ?_, h3, h5, h4, ?_, h7⟩
+    · simp only [runCall, receiveBits, h1, h2]
+    · intro j hj
+      rw [h6 j hj, covered_head n j hj, Bool.true_and]
 
 /-- Every sequence of well-formed calls on a pair whose streams are in step
 runs to completion (no error branch, every chunk consumed) and every call
